@@ -451,3 +451,58 @@ Example ex_not_a_stream_run :
   fst (reader toy_gzip_dec 4 (istream_init (toy_dec_init 0 0 false) [0] []) (repeat (4%nat, 4%nat) 3) [])
   = ([], RErr).
 Proof. vm_compute. reflexivity. Qed.
+
+(* ================================================================================================================ *)
+(* Strengthening (session 3, seed C15-8): decoder-side resource admission.                                           *)
+(* The limits are the values the working tree's xz.c / zstd.c / gzip.c really pass to the libraries                  *)
+(* (C15/GenC15Limits.v, measured by props/C15/gen_limits.c on every run); the must-accept sets are fixed numbers.    *)
+(* ================================================================================================================ *)
+From SqfsV Require Import C15.GenC15Limits C15.DecLimits.
+
+(* every xz block whose LZMA2 dictionary is at most 96 MiB (property byte <= 29) is within the memory limit that
+   xz.c hands to lzma_stream_decoder, whatever liblzma's bounded overhead is *)
+Theorem xz_memlimit_admits_96MiB : forall slack bits : N,
+  (slack <= xz_slack_bound)%N -> (bits <= xz_must_accept_bits)%N ->
+  xz_admits c_xz_dec_memlimit slack bits = true.
+Proof. exact xz_memlimit_admits_96MiB_lemma. Qed.
+Print Assumptions xz_memlimit_admits_96MiB.
+
+Theorem xz_admission_monotone : forall m s1 s2 b1 b2 : N,
+  (s1 <= s2)%N -> (b1 <= b2)%N -> (b2 <= 40)%N -> xz_admits m s2 b2 = true -> xz_admits m s1 b1 = true.
+Proof. exact xz_admits_mono. Qed.
+Print Assumptions xz_admission_monotone.
+
+Theorem xz_flags_no_tell : N.land c_xz_dec_flags 7 = 0%N.
+Proof. exact xz_flags_no_tell_lemma. Qed.
+Print Assumptions xz_flags_no_tell.
+
+(* every zstd frame whose Window_Descriptor announces at most 2^27 bytes (what `zstd -d` takes by default) *)
+Theorem zstd_window_admitted : forall desc : N,
+  (desc <= zstd_must_accept_desc)%N -> zstd_admits c_zstd_dec_wlogmax desc = true.
+Proof. exact zstd_window_admitted_lemma. Qed.
+Print Assumptions zstd_window_admitted.
+
+Theorem gzip_window_maximal :
+  gzip_dec_takes_gzip c_gzip_dec_wbits = true /\ forall w : N, (w <= 15)%N -> (2 ^ w <= gzip_dec_window c_gzip_dec_wbits)%N.
+Proof. exact gzip_window_maximal_lemma. Qed.
+Print Assumptions gzip_window_maximal.
+
+(* non-vacuity / the numbers: 28 -> 64 MiB, 29 -> 96 MiB, 30 -> 128 MiB; the admission function does refuse
+   (a 128 MiB dictionary under a 128 MiB limit, a 64 MiB + 1 .. 96 MiB dictionary under liblzma's
+   lzma_easy_decoder_memusage(9) = 65 MiB + 64 KiB); the hypotheses are met by bits = 29 with the full slack *)
+Example ex_lzma2_dict_sizes :
+  (lzma2_dict_size 0, lzma2_dict_size 28, lzma2_dict_size 29, lzma2_dict_size 30, lzma2_dict_size 40)
+  = (4096, 67108864, 100663296, 134217728, 4294967295)%N.
+Proof. vm_compute. reflexivity. Qed.
+Example ex_xz_admission_refuses :
+  xz_admits (128 * 2 ^ 20) 1 30 = false /\ xz_admits (65 * 2 ^ 20 + 65536) 0 29 = false /\
+  xz_admits (65 * 2 ^ 20 + 65536) xz_slack_bound 28 = true.
+Proof. vm_compute. repeat split. Qed.
+Example ex_xz_must_accept_instance :
+  (xz_slack_bound <= xz_slack_bound)%N /\ (29 <= xz_must_accept_bits)%N /\
+  xz_admits c_xz_dec_memlimit xz_slack_bound 29 = true.
+Proof. vm_compute. repeat split; discriminate. Qed.
+Example ex_zstd_windows :
+  (zstd_window_size 0, zstd_window_size 7, zstd_window_size 136, zstd_window_size 137) = (1024, 1920, 134217728, 150994944)%N
+  /\ zstd_admits 27 137 = false /\ zstd_admits 24 136 = false.
+Proof. vm_compute. repeat split. Qed.
